@@ -46,5 +46,9 @@ func (seg *segment) updateDuration(currentFramePts int64) {
 		return
 	}
 
-	seg.duration = float64(currentFramePts-seg.segmentStartPts) / 90000.0
+	// 时长只增不减：缓存后才写出的音频帧时间戳较早，不能让它把片段时长拉回去
+	// （否则到达关键帧时误判为未满一个片段而错过切分，之后只能在音频帧上强制切分）
+	if d := float64(currentFramePts-seg.segmentStartPts) / 90000.0; d > seg.duration {
+		seg.duration = d
+	}
 }
